@@ -552,7 +552,7 @@ func promoPlacement(r *rng) string {
 	return fenFromMap(cells, side, "-", "-", 1+r.intn(40))
 }
 
-// refmm: plain unpruned minimax of the depth-d tree of property C04 with the engine's own generator and evaluation
+// refmm: plain unpruned minimax of the depth-d tree of property C04 with the engine's legal-move generator and evaluation
 // (full width for d plies, then captures/promotions with stand-pat on the FULL evaluation, mate/stalemate where they occur),
 // plus "some quiescence node is lazy-sensitive" (|full - material part| > margin).  Used only to judge disagreements.
 type refmm struct {
@@ -582,10 +582,13 @@ func (r *refmm) quiesce(gen *engine.Generator, depth int) int {
 		}
 	}
 	best := sp
-	for _, t := range strings.Fields(engine.VerifTactical(gen)) {
-		m := t
-		if i := strings.IndexAny(m, "*@"); i >= 0 {
-			m = m[:i]
+	// the material-changing moves, decided here from the board (capture = occupied target or a pawn changing file,
+	// promotion = five-character move) and NOT taken from the engine's tactical generator or its tactical flags
+	for _, m := range engine.VerifLegalOrdered(gen) {
+		from := (m[1]-'1')<<4 | (m[0] - 'a')
+		to := (m[3]-'1')<<4 | (m[2] - 'a')
+		if !(len(m) == 5 || engine.VerifPieceAt(p, to) != 0 || (engine.VerifPieceAt(p, from)&0x3f == 1 && m[0] != m[2])) {
+			continue
 		}
 		if err := engine.VerifPush(gen, m); err != nil {
 			continue
@@ -638,7 +641,7 @@ func init() {
 				}
 				d := 1
 				fmt.Sscanf(parts[1], "%d", &d)
-				r := &refmm{limit: 30000000}
+				r := &refmm{limit: intArg(args, 1, 30000000)}
 				v := r.full(gen, d, 0)
 				s := 0
 				if r.sens {
